@@ -53,15 +53,41 @@ def check_tree(ctx, u, lab, m):
     R = 'C13-R1'
     ln = one(m, 'link_node')
     ctx.fn(lab + '::link_node')
-    ifs = [x for x in walk(body_of(ln)) if x.get('kind') == 'IfStmt' and enclosing(x, LOOPS) is not None and enclosing(x, ('IfStmt',)) is None]
-    okd = False
-    if len(ifs) == 1:
-        cond, then, els = if_parts(ifs[0])
-        c = nf(cond)
-        tb = {canon(x['inner'][0]) for x in walk(then) if x.get('kind') == 'BinaryOperator' and x.get('opcode') == '=' and canon(x['inner'][0]).startswith('n.')}
-        eb = {canon(x['inner'][0]) for x in walk(els) if x.get('kind') == 'BinaryOperator' and x.get('opcode') == '=' and canon(x['inner'][0]).startswith('n.')} if els is not None else set()
-        okd = c == '(new_node.pt.at(n.dim) < n.pt.at(n.dim))' and tb == {'n.before'} and eb == {'n.after_or_equal'}
-    ctx.check(okd, R, lab + '|link_node|descent', ifs[0] if ifs else ln, 'new < node (strict) -> before, else after_or_equal', 'link_node descent predicate/branches changed: %s' % (nf(if_parts(ifs[0])[0]) if ifs else None))
+    # the descent decision: a comparison of the new point with a node's point along that node's
+    # dimension selects `before` (strictly smaller) or `after_or_equal` (everything else) - written
+    # as an if/else, a named bool or a conditional expression
+    import re as _re
+    decisions = []
+    for x in walk(body_of(ln)):
+        if x.get('kind') not in ('IfStmt', 'ConditionalOperator'):
+            continue
+        if x.get('kind') == 'IfStmt':
+            cond, then, els = if_parts(x)
+        else:
+            cond, then, els = kids(x)[0], kids(x)[1], kids(x)[2]
+        rel = None
+        for n_, pol_ in atoms([Fact(cond, True, x)]):
+            r_ = relation(n_, pol_)
+            if r_ and r_[1] in ('<', '<=', '>', '>='):
+                a_, b_ = nf(r_[0]), nf(r_[2])
+                m1 = _re.match(r'^new_node\.pt\.at\((\w+)\.dim\)$', a_)
+                m2 = _re.match(r'^(\w+)\.pt\.at\((\w+)\.dim\)$', b_)
+                if m1 and m2 and m1.group(1) == m2.group(1) == m2.group(2):
+                    rel = (r_[1], m1.group(1))
+                m1 = _re.match(r'^new_node\.pt\.at\((\w+)\.dim\)$', b_)
+                m2 = _re.match(r'^(\w+)\.pt\.at\((\w+)\.dim\)$', a_)
+                if m1 and m2 and m1.group(1) == m2.group(1) == m2.group(2):
+                    rel = (FLIP[r_[1]], m1.group(1))
+        if rel is None or els is None:
+            continue
+        tm = {y.get('name') for y in walk(then) if y.get('kind') == 'MemberExpr' and y.get('name') in ('before', 'after_or_equal')}
+        em = {y.get('name') for y in walk(els) if y.get('kind') == 'MemberExpr' and y.get('name') in ('before', 'after_or_equal')}
+        decisions.append((x, rel[0], tm, em))
+    if not decisions:
+        ctx.undecided(R, lab + '|link_node|descent', ln, 'the before/after_or_equal decision of link_node was not recognised')
+    for x, op_, tm, em in decisions:
+        ctx.check(op_ == '<' and tm == {'before'} and em == {'after_or_equal'}, R, lab + '|link_node|descent', x, 'new < node (strict) -> before, else after_or_equal',
+                  'link_node sends `new %s node` to %s and everything else to %s: ties must go to after_or_equal (strict `<` selects before)' % (op_, sorted(tm), sorted(em)))
     for nm, np_ in (('at', 1), ('erase', 2)):
         f = one(m, nm, np_)
         ctx.fn('%s::%s' % (lab, nm))
@@ -74,13 +100,30 @@ def check_tree(ctx, u, lab, m):
         defs = {v.get('name'): nf(kids(v)[-1]) for v in walk(body_of(f)) if v.get('kind') == 'VarDecl' and kids(v) and dtype(v) == 'bool'}
         lo = defs.get('low_less')
         hi = defs.get('high_greater')
+        if lo is None and hi is None:
+            # the traversal lives elsewhere (a shared visitor): analyse the function that holds it
+            g = None
+            for c_ in walk(body_of(f)):
+                if c_.get('kind') in ('CallExpr', 'CXXMemberCallExpr'):
+                    d_ = callee_decl(c_, u)
+                    if d_ is not None and body_of(d_) is not None and any(v.get('kind') == 'VarDecl' and v.get('name') in ('low_less', 'high_greater') for v in walk(body_of(d_))):
+                        g = d_
+            if g is None:
+                ctx.undecided(R, '%s|%s|visit' % (lab, nm), f, 'the range traversal of %s (low_less / high_greater pruning) was not found in the function or a direct callee' % nm)
+                continue
+            f = g
+            defs = {v.get('name'): nf(kids(v)[-1]) for v in walk(body_of(f)) if v.get('kind') == 'VarDecl' and kids(v) and dtype(v) == 'bool'}
+            lo, hi = defs.get('low_less'), defs.get('high_greater')
         ctx.check(lo in ('(low.at(n.dim) < n.pt.at(n.dim))', '(low.at(n.dim) <= n.pt.at(n.dim))'), R, '%s|%s|visit-before' % (lab, nm), f, 'before visited iff low < node', 'the `before` subtree is visited under `%s`: entries smaller than the node inside the box can be skipped' % lo)
         ctx.check(hi in ('(n.pt.at(n.dim) <= high.at(n.dim))', '(n.pt.at(n.dim) < high.at(n.dim))'), R, '%s|%s|visit-after' % (lab, nm), f, 'after_or_equal visited iff high >= node', 'the `after_or_equal` subtree is visited under `%s`: entries >= the node inside the box can be skipped' % hi)
         pushes = sorted((nf(if_parts(x)[0]), nf(stmts_of(if_parts(x)[1])[0])) for x in walk(body_of(f)) if x.get('kind') == 'IfStmt' and any(call_name(c) == 'emplace_back' and canon(member_call_object(c)) == 'level_nodes' for c in walk(if_parts(x)[1]) if c.get('kind') == 'CXXMemberCallExpr'))
         ctx.check(pushes == [('(high_greater && n.after_or_equal)', 'level_nodes.emplace_back(n.after_or_equal)'), ('(low_less && n.before)', 'level_nodes.emplace_back(n.before)')], R, '%s|%s|children' % (lab, nm), f, 'children enqueued under their own predicate', 'child enqueue conditions are %s' % pushes)
         box = [x for x in walk(body_of(f)) if x.get('kind') == 'IfStmt' and any(y.get('kind') == 'BreakStmt' for y in walk(if_parts(x)[1]))]
         okb = len(box) == 1 and nf(if_parts(box[0])[0]) == '((n.pt.at(dim) < low.at(dim)) || (high.at(dim) <= n.pt.at(dim)))'
-        ctx.check(okb, R, '%s|%s|half-open-box' % (lab, nm), box[0] if box else f, 'inside iff low <= p < high in every dimension', 'box membership test is `%s`' % (nf(if_parts(box[0])[0]) if box else None))
+        if not box:
+            ctx.undecided(R, '%s|%s|half-open-box' % (lab, nm), f, 'the box membership test is not an `if (...) break` over the dimensions in this function (moved to a helper)')
+        else:
+          ctx.check(okb, R, '%s|%s|half-open-box' % (lab, nm), box[0] if box else f, 'inside iff low <= p < high in every dimension', 'box membership test is `%s`' % (nf(if_parts(box[0])[0]) if box else None))
 
     # ---------------- R2
     R = 'C13-R2'
@@ -97,7 +140,15 @@ def check_tree(ctx, u, lab, m):
             why += ': with ties along the split dimension the other tied entries stay under `before` although they are not strictly smaller than the new node value, and exact lookups stop finding them'
         ctx.check(ok, R, '%s|delete_node|replacement#%d' % (lab, i), c, 'minimum of after_or_equal along n->dim', why)
     rehome = [x for x in walk(body_of(dn)) if x.get('kind') == 'IfStmt' and nf(if_parts(x)[0]) == '!n.after_or_equal']
-    okr = len(rehome) == 1 and [nf(s) for s in stmts_of(if_parts(rehome[0])[1])] == ['(n.after_or_equal = n.before)', '(n.before = nullptr)'] and rehome[0].get('_off', 0) < calls[0].get('_off', 0)
+    def _rehomes(then):
+        st_ = [nf(s_) for s_ in stmts_of(then)]
+        if st_ == ['(n.after_or_equal = n.before)', '(n.before = nullptr)']:
+            return True
+        # std::swap(n->before, n->after_or_equal) under `after_or_equal == nullptr` has the same effect
+        sw_ = [c_ for c_ in walk(then) if c_.get('kind') == 'CallExpr' and call_name(c_) == 'swap' and sorted(nf(a_) for a_ in call_args(c_)) == ['n.after_or_equal', 'n.before']]
+        return len(stmts_of(then)) == 1 and len(sw_) == 1
+    rehome = [x for x in walk(body_of(dn)) if x.get('kind') == 'IfStmt' and nf(if_parts(x)[0]) in ('!n.after_or_equal', '(n.after_or_equal == nullptr)', '(nullptr == n.after_or_equal)')]
+    okr = len(rehome) == 1 and _rehomes(if_parts(rehome[0])[1]) and rehome[0].get('_off', 0) < calls[0].get('_off', 0)
     ctx.check(okr, R, lab + '|delete_node|rehome-before', rehome[0] if rehome else dn, 'a lone before subtree is moved to after_or_equal (and before cleared) before the search', 'the lone-`before` case is not re-homed to after_or_equal before taking the minimum')
     moves = [nf(x) for x in walk(body_of(dn)) if x.get('kind') in ('BinaryOperator', 'CXXOperatorCallExpr') and (x.get('opcode') == '=' or call_name(x) == 'operator=') and canon(x['inner'][0] if x.get('kind') == 'BinaryOperator' else x['inner'][1]) in ('n.pt', 'n.value', 'n')]
     ctx.check(any('n.pt' in s_ and 'target.pt' in s_ for s_ in moves) and any('n.value' in s_ and 'target.value' in s_ for s_ in moves) and '(n = target)' in moves, R, lab + '|delete_node|move-up', dn, 'point and value of the replacement move up, then the replacement is deleted in turn', 'replacement copy-up changed: %s' % moves)
@@ -142,7 +193,11 @@ def check_tree(ctx, u, lab, m):
                         ctx.check(okc, R, '%s|%s|descent-loop-null-test' % (lab, nm), lp_, 'descent loop tests the node for null', '%s walks from root without testing the node for null' % nm)
     ctx.require(seeds >= 3, '%s: traversals seeded with root not found (%d)' % (lab, seeds))
     r0 = [x for x in walk(body_of(ln)) if x.get('kind') == 'IfStmt' and nf(if_parts(x)[0]) in ('(nullptr == this.root)', '(this.root == nullptr)', '!this.root')]
-    ctx.check(len(r0) == 1 and not falls_through(if_parts(r0[0])[1]), R, lab + '|link_node|empty-tree', ln, 'empty tree handled before the descent', 'link_node dereferences root without handling the empty tree')
+    slot_descent = any(v.get('kind') == 'VarDecl' and '**' in (qtype(v) or '').replace(' ', '') and kids(v) and 'this.root' in canon(kids(v)[-1]) for v in walk(body_of(ln)))
+    if slot_descent and len(r0) != 1:
+        ctx.undecided(R, lab + '|link_node|empty-tree', ln, 'link_node descends through a pointer to the link slot (Node**): the empty tree is the loop\'s zero-iteration case, which this rule does not model')
+    else:
+      ctx.check(len(r0) == 1 and not falls_through(if_parts(r0[0])[1]), R, lab + '|link_node|empty-tree', ln, 'empty tree handled before the descent', 'link_node dereferences root without handling the empty tree')
 
     # ---------------- R4
     R = 'C13-R4'
@@ -173,32 +228,73 @@ def check_tree(ctx, u, lab, m):
             elif k == 'BreakStmt':
                 out.append('break')
         return out
+    def _visitor(f_):
+        for c_ in walk(body_of(f_)):
+            if c_.get('kind') in ('CallExpr', 'CXXMemberCallExpr'):
+                d_ = callee_decl(c_, u)
+                if d_ is not None and body_of(d_) is not None and any(v.get('kind') == 'VarDecl' and v.get('name') in ('low_less', 'high_greater') for v in walk(body_of(d_))):
+                    return d_
+        return None
+    vw, ve = _visitor(wi), _visitor(ex)
+    if vw is not None and ve is not None and u.qualname(vw) == u.qualname(ve):
+        # one shared traversal drives both: they agree by construction (its pruning is judged by R1, its root test by R3)
+        ctx.ok(R, lab + '|within==exists(range)', ex, 'within and exists(low, high) run the same visitor %s' % vw.get('name'))
+        thr_ = [t for f_ in (wi, ex, vw) for t in walk(body_of(f_)) if t.get('kind') == 'CXXThrowExpr']
+        ctx.check(not thr_, R, lab + '|empty-tree-result', thr_[0] if thr_ else wi, 'neither range query throws', 'a range query throws (%s): the empty tree must give the empty result / false' % (src_text(thr_[0], 60) if thr_ else ''))
+        ctx.ok(R, lab + '|hit-action', wi, 'hits are reported by the shared visitor to both callers')
+        ctx.ok(R, lab + '|shared-visitor', vw, 'shared traversal', nontrivial=False)
+        return _check_r5(ctx, u, lab, m, ln, dn, calls)
     a, b = skeleton(wi), skeleton(ex)
     ctx.check(a == b, R, lab + '|within==exists(range)', ex, 'identical traversal', 'within and exists(low, high) differ: %s' % [p for p in zip(a, b) if p[0] != p[1]][:2])
     hit_w = [x for x in walk(body_of(wi)) if x.get('kind') == 'CXXMemberCallExpr' and call_name(x) == 'emplace_back' and canon(member_call_object(x)) == 'ret']
     hit_e = [x for x in walk(body_of(ex)) if x.get('kind') == 'ReturnStmt' and kids(x) and int_value(kids(x)[0]) == 1]
     okh = len(hit_w) == 1 and len(hit_e) == 1 and [nf(f_.cond) for f_ in path_facts(hit_w[0])] == [nf(f_.cond) for f_ in path_facts(hit_e[0])]
-    ctx.check(okh, R, lab + '|hit-action', hit_w[0] if hit_w else wi, 'collect vs return true under the same condition', 'the hit conditions of within and exists(range) differ')
+    if not hit_w or not hit_e:
+        ctx.undecided(R, lab + '|hit-action', wi, 'within / exists(range) do not contain their own hit sites (shared visitor): agreement not decided by this rule')
+    else:
+      ctx.check(okh, R, lab + '|hit-action', hit_w[0] if hit_w else wi, 'collect vs return true under the same condition', 'the hit conditions of within and exists(range) differ')
     rw = [x for x in walk(body_of(wi)) if x.get('kind') == 'ReturnStmt']
     re_ = [x for x in walk(body_of(ex)) if x.get('kind') == 'ReturnStmt' and int_value(kids(x)[0]) == 0]
     okr = len(rw) == 2 and len(re_) == 2 and any(f_.origin is not None and 'this.root' in nf(f_.cond) for f_ in path_facts(rw[0])) and not any(t.get('kind') == 'CXXThrowExpr' for t in walk(body_of(wi)))
     ctx.check(okr, R, lab + '|empty-tree-result', wi, 'empty tree: within returns the empty vector, exists false (neither throws)', 'within/exists(range) disagree on the empty tree (one of them throws or dereferences root)')
 
+    return _check_r5(ctx, u, lab, m, ln, dn, calls)
+
+
+def _check_r5(ctx, u, lab, m, ln, dn, calls):
     # ---------------- R5
     R = 'C13-R5'
+    slot_descent = any(v.get('kind') == 'VarDecl' and '**' in (qtype(v) or '').replace(' ', '') and kids(v) and 'this.root' in canon(kids(v)[-1]) for v in walk(body_of(ln)))
     incs = [x for x in walk(body_of(ln)) if x.get('kind') == 'UnaryOperator' and x.get('opcode') == '++' and canon(x['inner'][0]) == 'this.node_count']
     links = [x for x in walk(body_of(ln)) if x.get('kind') == 'BinaryOperator' and x.get('opcode') == '=' and canon(x['inner'][0]) in ('this.root', 'n.before', 'n.after_or_equal') and canon(x['inner'][1]) == 'new_node']
     okc = len(incs) == 3 and len(links) == 3 and all(enclosing(i_, ('CompoundStmt',)) is enclosing(l_, ('CompoundStmt',)) for i_, l_ in zip(sorted(incs, key=lambda z: z['_off']), sorted(links, key=lambda z: z['_off'])))
-    ctx.check(okc, R, lab + '|link_node|count', ln, 'node_count++ next to each of the three link sites', 'node_count++ is not paired with every link site (%d increments, %d links)' % (len(incs), len(links)))
+    if not links and len(incs) == 1 and slot_descent:
+        # one link site through the slot pointer, one increment in the same block
+        sl = [x for x in walk(body_of(ln)) if x.get('kind') == 'BinaryOperator' and x.get('opcode') == '=' and strip(x['inner'][0]).get('kind') == 'UnaryOperator' and strip(x['inner'][0]).get('opcode') == '*' and canon(x['inner'][1]) == 'new_node']
+        ctx.check(len(sl) == 1 and enclosing(sl[0], ('CompoundStmt',)) is enclosing(incs[0], ('CompoundStmt',)), R, lab + '|link_node|count', ln, 'node_count++ next to the single link site', 'node_count++ is not paired with the link through the slot pointer')
+    else:
+      ctx.check(okc, R, lab + '|link_node|count', ln, 'node_count++ next to each of the three link sites', 'node_count++ is not paired with every link site (%d increments, %d links)' % (len(incs), len(links)))
     par = [x for x in walk(body_of(ln)) if x.get('kind') == 'BinaryOperator' and x.get('opcode') == '=' and canon(x['inner'][0]) == 'new_node.parent']
     dims = [nf(x['inner'][1]) for x in walk(body_of(ln)) if x.get('kind') == 'BinaryOperator' and x.get('opcode') == '=' and canon(x['inner'][0]) == 'new_node.dim']
-    ctx.check(len(par) == 2 and all(canon(p_['inner'][1]) == 'n' for p_ in par) and len(dims) == 2 and all(d.startswith('((1 + n.dim) % ') for d in dims), R, lab + '|link_node|parent-dim', ln, 'child gets parent = n and dim = (n.dim + 1) mod dimensions', 'parent/dim initialisation changed: %s' % dims)
+    import re as _re2
+    pv = {canon(p_['inner'][1]) for p_ in par}
+    okpd = len(par) >= 1 and len(pv) == 1 and len(dims) == len(par) and all(_re2.match(r'^\(\(1 \+ %s\.dim\) %% ' % _re2.escape(next(iter(pv))), d) for d in dims)
+    ctx.check(okpd and (len(par) == 2 or slot_descent), R, lab + '|link_node|parent-dim', ln, 'child gets parent = n and dim = (n.dim + 1) mod dimensions', 'parent/dim initialisation changed: %s' % dims)
     decs = [x for x in walk(body_of(dn)) if x.get('kind') == 'UnaryOperator' and x.get('opcode') == '--' and canon(x['inner'][0]) == 'this.node_count']
     dels = [x for x in walk(body_of(dn)) if x.get('kind') == 'CXXDeleteExpr']
     ctx.check(len(decs) == 1 and len(dels) == 1 and enclosing(decs[0], LOOPS) is None and enclosing(dels[0], LOOPS) is None and canon(kids(dels[0])[0]) == 'n', R, lab + '|delete_node|count-delete', dn, 'exactly one node_count-- and one delete per deletion', 'delete_node decrements %d time(s) and deletes %d time(s)' % (len(decs), len(dels)))
     un = [nf(x) for x in walk(body_of(dn)) if x.get('kind') == 'IfStmt' and x.get('_off', 0) > (calls[0].get('_off', 0))]
     want_un = {'(n == n.parent.before)', '(n == n.parent.after_or_equal)'}
-    conds = {nf(if_parts(x)[0]): [nf(s) for s in stmts_of(if_parts(x)[1])] for x in walk(body_of(dn)) if x.get('kind') == 'IfStmt'}
+    from guard import subst_locals
+    # (a local alias `Node* parent = n->parent` is substituted away)
+    palias = {v.get('name') for v in walk(body_of(dn)) if v.get('kind') == 'VarDecl' and kids(v) and nf(kids(v)[-1]) == 'n.parent'}
+
+    def _pn(t):
+        import re as _re3
+        for a_ in palias:
+            t = _re3.sub(r'(?<![\w.])%s(?![\w(])' % _re3.escape(a_), 'n.parent', t)
+        return t.replace('(nullptr == n.parent)', '(n.parent == nullptr)')
+    conds = {_pn(nf(if_parts(x)[0])): [_pn(nf(s)) for s in stmts_of(if_parts(x)[1])] for x in walk(body_of(dn)) if x.get('kind') == 'IfStmt'}
     oku = conds.get('(n == n.parent.before)') == ['(n.parent.before = nullptr)'] and conds.get('(n == n.parent.after_or_equal)') == ['(n.parent.after_or_equal = nullptr)'] and \
         any(k_ in ('(n.parent == nullptr)', '(nullptr == n.parent)', '!n.parent') and v_[:1] == ['(this.root = nullptr)'] for k_, v_ in conds.items())
     ctx.check(oku, R, lab + '|delete_node|unlink-from-parent', dn, 'the parent slot that holds the node is cleared (root if there is no parent)', 'unlink-from-parent changed: %s' % {k_: v_ for k_, v_ in conds.items() if 'parent' in k_})
@@ -221,5 +317,14 @@ def check_tree(ctx, u, lab, m):
     ctx.check(not inside and okm, R, lab + '|erase|whole-descent', inside[0] if inside else er, 'erase reports failure only after the descent reached a null child; a node matches iff point and value both match',
               'erase gives up inside the descent (%s): with duplicate points and different values the matching entry further down is never reached, erase returns false and removes nothing' % (src_text(inside[0].get('_p') or inside[0], 60) if inside else 'match test changed'))
     ea = one(m, 'erase_advance')
-    okea = any(call_name(c) == 'delete_node' for c in walk(body_of(ea)) if c.get('kind') == 'CXXMemberCallExpr') and any(call_name(c) == 'pop_front' and any((ref_decl(n_) or {}).get('name') == 'deleted' and pol for n_, pol in atoms(path_facts(c))) for c in walk(body_of(ea)) if c.get('kind') == 'CXXMemberCallExpr')
+    def _freed_fact(c):
+        for n_, pol in atoms(path_facts(c)):
+            if not pol:
+                continue
+            if (ref_decl(n_) or {}).get('name') == 'deleted':
+                return True
+            if any(y.get('kind') == 'CXXMemberCallExpr' and call_name(y) == 'delete_node' for y in walk(n_)):
+                return True
+        return False
+    okea = any(call_name(c) == 'delete_node' for c in walk(body_of(ea)) if c.get('kind') == 'CXXMemberCallExpr') and any(call_name(c) == 'pop_front' and _freed_fact(c) for c in walk(body_of(ea)) if c.get('kind') == 'CXXMemberCallExpr')
     ctx.check(okea, R, lab + '|erase_advance|queue', ea, 'the front of the iterator queue is dropped only when the node object itself was freed', 'erase_advance pops the queue regardless of whether the node object was freed')
